@@ -23,8 +23,9 @@ CONSTANTS
   MaxOffers = %d
   MaxCrash = %d
   Atomic = %s
+  Ucon = %s
   GenMode = "none"
-INVARIANT Consistent NotWedged NoPrunedDispatch
+INVARIANT Consistent NotWedged %s
 VIEW View
 CHECK_DEADLOCK FALSE
 """
@@ -34,6 +35,7 @@ CONSTANTS
   MaxOffers = %d
   MaxCrash = 0
   Atomic = FALSE
+  Ucon = %s
   GenMode = "leaf"
 CONSTRAINT Leaf
 CHECK_DEADLOCK FALSE
@@ -60,60 +62,79 @@ def witnesses():
     return behs
 
 
+def mcfg(offers, crashes, atomic, ucon):
+    return M_CFG % (offers, crashes, atomic, "TRUE" if ucon else "FALSE", "" if ucon else "NoPrunedDispatch")
+
+
+def wrap(h, ucon):
+    return {"engine": "ucon", "offers": h} if ucon else h
+
+
 def generate(ctx):
     quick = ctx.quick
     files = {"known_c11.json": json.dumps(known_for_model(ctx))}
     behs = witnesses()
     nw = len(behs)
     violated = None
-    runs = [(4, 1)] if quick else [(5, 1), (4, 2)]
-    for i, (offers, crashes) in enumerate(runs):
-        m = ctx.tlc_must("ChainImport", M_CFG % (offers, crashes, "FALSE"), name="M_design_o%d_c%d" % (offers, crashes), files=files,
-                         timeout=3000, coverage=(not quick and i == 0))
+    # M: solo engine and the engine with ucon's header dispatch (side-chain path)
+    runs = [(4, 1, False), (3, 1, True)] if quick else [(5, 1, False), (4, 2, False), (4, 1, True), (3, 2, True)]
+    for i, (offers, crashes, ucon) in enumerate(runs):
+        m = ctx.tlc_must("ChainImport", mcfg(offers, crashes, "FALSE", ucon), files=files, timeout=3000,
+                         name="M_design_%s_o%d_c%d" % ("ucon" if ucon else "solo", offers, crashes), coverage=(not quick and i == 0))
         for v in m.printed:
             if isinstance(v, dict) and v.get("kind") == "CEX":
-                behs.append(v["h"])
+                behs.append(wrap(v["h"], ucon))
                 ctx.note("design-level counterexample for %s %s exported for replay" % (v.get("clause"), v.get("disc")))
         if i == 0:
             ctx.cov["exhaustive"] = m.ok
             ctx.cov["design_violation"] = m.violated
             if getattr(m, "zero_actions", None):
                 ctx.cov["coverage_zero_actions"] = m.zero_actions
+        else:
+            ctx.cov["exhaustive"] = bool(ctx.cov["exhaustive"] and m.ok)
         violated = violated or m.violated
     ncex = len(behs) - nw
-    # the proposed repair (one atomic batch for lookups, canonical hashes and head markers) has no deviation at all
-    offers, crashes = (3, 1) if quick else (4, 2)
-    f = ctx.tlc_must("ChainImport", M_CFG % (offers, crashes, "TRUE"), name="M_repaired", timeout=3000,
-                     files={"known_c11.json": json.dumps([{"clause": "-none-", "disc": ["-"]}])})
-    ctx.cov["repaired_design_holds"] = bool(f.ok)
-    if not f.ok:
-        ctx.note("the design with the proposed repair still has a deviation: %s" % f.violated)
+    # the proposed repair (one atomic batch for lookups, canonical hashes and head markers) leaves only the deviation with another
+    # root cause (body stored before the header + HasBlock looking at the body only)
+    other = [k for k in known_for_model(ctx) if "panic_in_recovery" in k["disc"]] or [{"clause": "-none-", "disc": ["-"]}]
+    ok = True
+    for ucon in (False, True):
+        offers, crashes = (3, 1) if quick else (4, 2) if not ucon else (3, 2)
+        f = ctx.tlc_must("ChainImport", mcfg(offers, crashes, "TRUE", ucon), name="M_repaired_%s" % ("ucon" if ucon else "solo"),
+                         timeout=3000, files={"known_c11.json": json.dumps(other if ucon else [{"clause": "-none-", "disc": ["-"]}])})
+        ok = ok and bool(f.ok)
+        if not f.ok:
+            ctx.note("the design with the proposed repair still has a deviation: %s" % f.violated)
+    ctx.cov["repaired_design_holds"] = ok
     rnd = random.Random(ctx.seed)
-    # G1: bounded exhaustive sequences of calls
-    g = {}
-    for d in (1, 2, 3):
-        r = ctx.tlc_must("ChainImport", G_CFG % d, name="G1_depth%d" % d, files=files, timeout=1500)
-        g[d] = [v["h"] for v in r.printed if isinstance(v, dict) and v.get("kind") == "B"]
-    seqs = list(g[1])
-    if quick:
+    seqs = []
+    for ucon in (False, True):
+        tag = "ucon" if ucon else "solo"
+        ustr = "TRUE" if ucon else "FALSE"
+        # G1: bounded exhaustive sequences of calls
+        g = {}
+        for d in (1, 2, 3):
+            r = ctx.tlc_must("ChainImport", G_CFG % (d, ustr), name="G1_%s_depth%d" % (tag, d), files=files, timeout=1500)
+            g[d] = [v["h"] for v in r.printed if isinstance(v, dict) and v.get("kind") == "B"]
+        part = list(g[1])
         rnd.shuffle(g[2])
         rnd.shuffle(g[3])
-        seqs += g[2] + g[3][:150]
-    else:
-        rnd.shuffle(g[3])
-        seqs += g[2] + g[3]
-    n1 = len(seqs)
-    # G2: longer random sequences
-    depth = 5
-    g2 = ctx.tlc_must("ChainImport", G_CFG % depth, name="G2_simulate", files=files, timeout=1500,
-                      simulate={"num": 100 if quick else 600}, depth=400)
-    sim = [v["h"] for v in g2.printed if isinstance(v, dict) and v.get("kind") == "B"]
-    sim = [json.loads(s) for s in sorted({json.dumps(b) for b in sim})]
-    rnd.shuffle(sim)
-    seqs += sim[:(60 if quick else 500)]
+        if quick:
+            part += g[2][:(90 if ucon else 120)] + g[3][:(45 if ucon else 90)]
+        else:
+            part += g[2] + g[3][:(1200 if ucon else 2744)]
+        n1 = len(part)
+        # G2: longer random sequences
+        g2 = ctx.tlc_must("ChainImport", G_CFG % (5, ustr), name="G2_%s_simulate" % tag, files=files, timeout=1500,
+                          simulate={"num": 80 if quick else 600}, depth=600)
+        sim = [v["h"] for v in g2.printed if isinstance(v, dict) and v.get("kind") == "B"]
+        sim = [json.loads(x) for x in sorted({json.dumps(b) for b in sim})]
+        rnd.shuffle(sim)
+        part += sim[:((30 if ucon else 40) if quick else (300 if ucon else 500))]
+        ctx.note("%s engine: %d bounded-exhaustive, %d simulated sequences" % (tag, n1, len(part) - n1))
+        seqs += [wrap(h, ucon) for h in part]
     behs += seqs
-    ctx.note("behaviours: %d witnesses, %d design counterexamples, %d bounded-exhaustive, %d simulated" % (
-        nw, ncex, n1, len(seqs) - n1))
+    ctx.note("behaviours: %d witnesses, %d design counterexamples, %d generated" % (nw, ncex, len(seqs)))
     return behs, violated
 
 
@@ -142,14 +163,18 @@ def judge(ctx, behs, conformance=True):
     ctx.cov["evaluations"] += restarts + imports
     ctx.cov["crash_points_restarted"] = ctx.cov.get("crash_points_restarted", 0) + restarts
     ctx.cov["distinct_nontrivial"] += len({json.dumps(behs[t]) for t in reorg_t if t < len(behs)})
-    # "restarting on the same database succeeds": a process abort while restarting / recovering is a violation
+    # "restarting on the same database succeeds" / "not wedged": the process dying (logging.Crit = os.Exit; Go panics of the
+    # recovery are recorded by the driver itself) while restarting or while importing the blocks again is a violation
     for a in info["aborts"]:
         last = last_by_t.get(a["b"], "")
-        if '"ev":"restarting"' in last or '"ev":"restart"' in last:
+        if '"ev":"restarting"' in last:
             sig = "C11/RestartSucceeds/process_abort"
-            ctx.report(sig, vlib.save_behaviour_replay(ctx, sig, bpath, a["b"], {}), {"abort": a, "last_event": last})
+        elif '"ev":"recovering"' in last:
+            sig = "C11/NotWedged/process_abort_in_recovery"
         else:
             ctx.note("driver aborted outside a restart in behaviour %s: %s" % (a["b"], a["msg"]))
+            continue
+        ctx.report(sig, vlib.save_behaviour_replay(ctx, sig, bpath, a["b"], {}), {"abort": a, "last_event": last})
     result, _ = vlib.monitor(ctx, "ChainImport_Mon", "ChainImport_Mon.cfg", trace, behaviours=bpath,
                              replay_meta={"driver": "chainimport"}, timeout=2400)
     if conformance:
@@ -200,10 +225,15 @@ def run(ctx):
                        "sequences (depth 2, 3; sampled by seed in the quick tier) + simulated sequences of 5 calls; for each call "
                        "EVERY database write is a crash point with restart, recovery and comparison with a node that never "
                        "crashed; non-trivial = the sequence contains a reorganisation; distinct by JSON")
-    ctx.assumptions += ["solo engine (no header rules): competing blocks become head in import order; the side-chain path "
-                        "(ErrExistCanonical / ErrPrunedAncestor) is not reachable in this fixture (NoPrunedDispatch)",
-                        "tree: G-A1(t1)-A2(t2)-A3, G-B1(t1)-B2-B3(t3), X = child of A1 with a wrong state root; further blocks "
-                        "F_b without transactions",
+    ctx.assumptions += ["two engines: solo (no header rules: competing blocks become head in import order; the side-chain path is "
+                        "not reachable, NoPrunedDispatch) and `ucon-like` = solo with the header dispatch of ucon's verifyHeader "
+                        "(ErrUnknownAncestor, ErrExistCanonical, ErrOlderBlockTime, ErrFutureBlock; no seal rules), implementing "
+                        "consensus.Ucon so that insertSidechain / verifyAllSideChainBlocks / the side-chain re-import run as with "
+                        "the real engine (harness/drive/chainimport/uconlike.go)",
+                        "tree: G-A1(t1)-A2(t2)-A3, G-B1(t1)-B2-B3(t3)-B4; invalid: X (child of A1) and S2 (child of B1) wrong state "
+                        "root, R3 (child of B2) wrong receipt root, U4 (child of B3) wrong gas used, T2 (child of B1, with valid-"
+                        "looking descendants T3, T4) and V4 (child of B3) header.TxHash not matching the body; further blocks F_b "
+                        "without transactions",
                         "one crash per history in the real runs (every write of every call); two crashes only at design level",
                         "the database is an in-memory youdb.Database; a crash is a frozen copy of the key/value map after a "
                         "Put/Delete/Batch.Write (batches are atomic)"]
